@@ -165,9 +165,14 @@ def execute(sc, workdir):
     if not runs:
         raise RuntimeError("no usable behaviour from TLC -simulate")
     sample = None
+    if stop_at is not None:
+        # confirmation on the stock simulator: only the first two failing sub-runs, cut shortly after their first failure
+        keep = [j for j in stop_at.get("runs", []) if j < len(runs)][:2] or [0]
+        runs = [runs[j] for j in keep]
     for j, (tag, d, lock_edges, memsem) in enumerate(runs):
         if stop_at is not None:
-            d = dict(d, max_ucycles=min(d.get("max_ucycles", 10 ** 9), stop_at))
+            d = dict(d, max_ucycles=min(d.get("max_ucycles", 10 ** 9), stop_at["uc"]), stall_limit=1200)
+            lock_edges = 0
         r = cdcdut.run_cdc(d, lock_edges=lock_edges)
         tid = j + 1
         tids[tid] = tag
@@ -207,7 +212,8 @@ def execute(sc, workdir):
         first = {}
         for b in v["bad"]:
             first[b[1]] = min(first.get(b[1], 10 ** 9), b[0])
-        hint = max(lines[n - 2].get("uc", 0) for n in first.values()) + 80
+        worst = sorted(first)[:2]
+        hint = dict(uc=max(lines[first[t] - 2].get("uc", 0) for t in worst) + 80, runs=[t - 1 for t in worst])
     drift = []
     if lock:
         lf = os.path.join(workdir, "lock.ndjson")
